@@ -124,3 +124,63 @@ func VerifC15Latin1Free(n, hiMask, alias, mask int) {
 	zv.Assert(res.GetText() == content, "hinted Latin-1: read(write(t)) == t whatever the decoder would have guessed")
 	zv.Reach("c15latin1")
 }
+
+// VerifC15Kanji: every double-byte Shift_JIS code point with lead byte in [lo, hi] that the character
+// set defines, written in batches of 16 with CHARACTER_SET=Shift_JIS (Kanji mode is chosen for
+// all-double-byte content) and read back: same text, and the symbol is in Kanji mode. Concrete
+// enumeration executed inside the engine (the Shift_JIS table is x/text's and cannot be made symbolic).
+func VerifC15Kanji(lo, hi int) {
+	eci, _ := common.GetCharacterSetECIByName("Shift_JIS")
+	dec := eci.GetCharset().NewDecoder()
+	enc := eci.GetCharset().NewEncoder()
+	batch, nb, total := "", 0, 0
+	flush := func() {
+		if nb == 0 {
+			return
+		}
+		hints := map[gozxing.EncodeHintType]interface{}{gozxing.EncodeHintType_CHARACTER_SET: "Shift_JIS"}
+		code, err := encoder.Encoder_encode(batch, decoder.ErrorCorrectionLevel_L, hints)
+		zv.Assert(err == nil && code != nil, "double-byte Shift_JIS text is accepted")
+		if err == nil {
+			zv.Assert(code.GetMode() == decoder.Mode_KANJI, "all-double-byte content under the Shift_JIS hint uses Kanji mode")
+			img, _ := renderResult(code, 0, 0, 0)
+			res, e3 := decoder.NewDecoder().Decode(img, nil)
+			zv.Assert(e3 == nil && res != nil, "the Kanji symbol is read")
+			if e3 == nil {
+				zv.Assert(res.GetText() == batch, "Kanji mode: read(write(t)) == t")
+			}
+		}
+		batch, nb = "", 0
+	}
+	for b1 := lo; b1 <= hi; b1++ {
+		if !((b1 >= 0x81 && b1 <= 0x9f) || (b1 >= 0xe0 && b1 <= 0xeb)) {
+			continue
+		}
+		for b2 := 0x40; b2 <= 0xfc; b2++ {
+			if b2 == 0x7f {
+				continue
+			}
+			v := b1<<8 | b2
+			if v > 0xebbf {
+				continue // outside the range Kanji mode can carry
+			}
+			u, err := dec.Bytes([]byte{byte(b1), byte(b2)})
+			if err != nil || string(u) == "�" || len(u) == 0 {
+				continue
+			}
+			back, err := enc.Bytes(u)
+			if err != nil || len(back) != 2 || back[0] != byte(b1) || back[1] != byte(b2) {
+				continue // not a canonical code point (duplicates map elsewhere)
+			}
+			batch += string(u)
+			nb++
+			total++
+			if nb == 16 {
+				flush()
+			}
+		}
+	}
+	flush()
+	zv.Assert(total > 0, "no code point exercised")
+	zv.Reach("c15kanji")
+}
